@@ -8,6 +8,14 @@ RULE = ("exhaustive: all strings over the full alphabet {0-9,+,-,.,x} up to leng
         "fractional digits (22/23 edge) at magnitudes around 2^53 and 2^64; random long digit strings with optional sign/dot/one "
         "corrupted byte; to_bool on all strings over {y,e,s,n,o,Y,space} up to length 4. f64 results compared by IEEE bit pattern. "
         "non-trivial = the implementation accepted the input, or the input is a boundary/fraction/long case")
+# >>> a_c11 (wave 4)
+RULE += ("; wave 4 (props/C11_more.py): the grammar-level spec functions of ScalarSpec.v (proved equal to the models for every byte "
+         "string) against to_u64/to_i64/to_f64 (with the PrecisionLoss payload)/to_bool on every power of ten 10^0..10^25 +-3, 15..20 "
+         "significant digits with the '.' at every position, 54..64-bit integers at and next to the rounding ties of `as f64`, ~100 text "
+         "forms that must be refused (exponents, inf/nan, hex, blanks), each of the 246 non-digit bytes as the foreign byte in 12 positions, "
+         "every single-byte edit of yes/no; the prefix parsers to_u64_t/to_i64_t; slices of every length 0..24 at every alignment mod 8 with "
+         "digits before and garbage after the slice; as_bytes/is_ascii/Display/Debug/==/Copy of Scalar and the accessors of ScalarError")
+# <<< a_c11
 TRUSTED = ["Flocq 4 binary64 (binary_normalize, Bdiv, Bmult in mode_NE) is the model of `as f64`, `/` and `*`; the literals of "
            "POWER_OF_TEN are modelled as the correctly rounded doubles of 10^k with k read from scalar.rs on every run",
            "oracle arithmetic: Python int / fractions.Fraction (exact), int/int true division (correctly rounded), struct for bit patterns"]
@@ -257,6 +265,11 @@ def run(ctx):
     # 5. bool
     bools = set(exhaustive(b"yesnoY ", 4)) | {b"yes\n", b"no\x00", b"true", b"false", b"1", b"0", b"yess", b"yes", b"no", b"", b"YES", b"No"}
     run_strings(ctx, "bool", sorted(bools), kinds=("bool",))
+    # >>> a_c11 (wave 4): spec functions / aligned slices / public surface, see props/C11_more.py
+    import sys
+    from props import C11_more
+    C11_more.run_more(ctx, sys.modules[__name__])
+    # <<< a_c11
 
 
 def search(ctx):
